@@ -33,6 +33,15 @@ Slice(a, b) ==                    \* rows[a:b], 0-based half-open as in Python
     /\ sidx' = NONE
     /\ hist' = Append(hist, [op |-> "slice", a |-> a, b |-> b, key |-> <<>>])
     /\ UNCHANGED <<rows0, out>>
+Stepped(step) ==                  \* rows[::step], step in {-1, 2, -2}: goes through take(), a new array without index
+    /\ Len(rows) >= 1
+    /\ LET pos == IF step > 0 THEN [j \in 1..((Len(rows) + step - 1) \div step) |-> (j - 1) * step + 1]
+                  ELSE [j \in 1..((Len(rows) - step - 1) \div (-step)) |-> Len(rows) - (j - 1) * (-step)]
+       IN /\ rows' = [j \in 1..Len(pos) |-> rows[pos[j]]]
+          /\ src' = [j \in 1..Len(pos) |-> src[pos[j]]]
+    /\ sidx' = NONE
+    /\ hist' = Append(hist, [op |-> "step", a |-> step, b |-> 0, key |-> <<>>])
+    /\ UNCHANGED <<rows0, out>>
 Copy ==
     /\ sidx' = NONE
     /\ hist' = Append(hist, [op |-> "copy", a |-> 0, b |-> 0, key |-> <<>>])
